@@ -53,6 +53,11 @@ CHECKS = {
    text="Runtime monitoring: generated JUnit-style trees (test classes by name and under src/test/java, flat and Maven layouts, production classes with the same patterns) whose test methods are assembled from planted evidence (annotations in every order, prints, sleeps, redundant assertions, assertions by every documented prefix with multiplicities around 5, plain calls, helpers with/without assertions) run through TbsApp.AnalysisPath wired as cmd/tbs.go does and through `coca tbs [--sort]`; monitor: multiset equality of findings per (file, type[, line]) with the model of the statement.",
    technique="generated workloads with planted evidence + offline exactly-once monitor over test-smell findings; known findings matched by planted-ground-truth signature",
    design="§4 C11"),
+ "C12": dict(
+   text="Runtime monitoring: generated Spring projects (controllers with @RestController/@Controller and optional class-level @RequestMapping in both annotation orders and all value forms, handlers in shorthand / value= / method= forms, non-handler members first and interleaved, annotated fields, @RequestBody on any parameter, non-controller classes with the same method annotations) analysed in several layouts (walk orders, subsets, each controller alone) through JavaApiApp.AnalysisPath wired as cmd/api.go does and through `coca analysis` + `coca api -f` (apis.json, api.csv); monitor: multiset equality of (verb, URI, request body, package, class, method) with the planted handlers, nothing from non-controllers, and identical entries for a controller in every project containing it.",
+   technique="generated workloads with planted handlers + offline exactly-once monitor and independence (metamorphic) relation",
+   design="§4 C12"),
+
 
  "C13": dict(
    text="Runtime monitoring: generated code models (types over package trees 1-5 deep, implements/extends/field/call relations to project types, externals, self, Main/main, colliding package-segment concatenations) x include filters x merge modes run through the real ArchApp.Analysis, MergeHeaderFile, ToMapDot and `coca arch [-x][-H][-P]`; the monitor checks node list, relation restricted to node pairs, the package quotient without self-loops and the DOT (gographviz parse, each type a leaf once under its package clusters, edges only between displayed nodes) against a reference relation built from the statement.",
@@ -85,7 +90,7 @@ CHECKS = {
 }
 
 # built but not yet registered (waiting for repairs of another property to land)
-DISABLED = {"C07", "C08"}
+DISABLED = set()
 
 def main():
     checks = []
